@@ -1301,3 +1301,14 @@ func SpecRdbBuffered(r *memoryRdb) int64 { panic("abstract spec function") }
 //@   set readerLeft = result after call Left
 //@   set readerSize = result after call Size
 //@   assert at call Send: a_transfer_is_announced_at_the_offset_the_readers_data_starts_at: arg0 != nil && arg0.Code == golang.SyncResponse_META ==> arg0.Offset == readerLeft && arg0.Size == readerSize
+
+// ---- the reader the output is fed from starts where the meta sync decided (C06) ----
+// syncMeta returns the position the cache is to be read from; readChannel opens the reader there.
+// A reader opened anywhere else (a later position the cache still holds, say) silently skips the
+// bytes between the target's stored position and that place.
+//@ func RedisInput.readChannel
+//@   arith int
+//@   properties C06
+//@   requires nonnil: ri != nil && ri.channel != nil
+//@   modifies heap, rdrId
+//@   assert at call NewReader: the_cache_is_read_from_the_position_the_meta_sync_decided: off.Offset == old(readerOffset.Offset) && off.RunId == old(readerOffset.RunId)
